@@ -45,6 +45,70 @@ def desc(e, aliases=None):
     return "?" + str(k)
 
 
+def _root_node(e):
+    """like H.root_local, but returns the path node (so that its binding id is available)"""
+    while isinstance(e, dict):
+        k = e.get("k")
+        if k == "path":
+            return e if e.get("res") == "local" else None
+        if k in ("ref", "use", "cast", "field") or (k == "un" and e.get("o") == "*"):
+            e = e["e"]
+        elif k == "mcall" and e.get("m") in H.TRANSPARENT_METHODS:
+            e = e["r"]
+        else:
+            return None
+    return None
+
+
+def lid_aliases(body):
+    """binding id -> binding id it merely renames (`let x = y;`, `let x = y.borrowed();`, `let x = &*y;`), transitively"""
+    al = {}
+    for x in H.walk(body):
+        if x.get("k") == "slet" and (x.get("p") or {}).get("k") == "bind" and "e" in x and "lid" in x["p"]:
+            r = _root_node(x["e"])
+            if r is not None and r.get("lid") is not None:
+                al[x["p"]["lid"]] = r["lid"]
+    def root(l, depth=0):
+        while l in al and depth < 20:
+            l, depth = al[l], depth + 1
+        return l
+    return {l: root(l) for l in al}
+
+
+def kdesc(e, al=None):
+    """`desc` for key comparison: locals are identified by their binding (name and HIR id), so that a later `let` that
+    shadows a key operand is a different operand"""
+    k = e.get("k")
+    if k in ("ref", "use", "cast"):
+        return kdesc(e["e"], al)
+    if k == "array":
+        return [kdesc(x, al) for x in e["a"]]
+    if k == "tup":
+        return tuple(kdesc(x, al) for x in e["a"])
+    r = e if (k == "path" and e.get("res") == "local") else _root_node(e)
+    if r is not None:
+        return "%s#%s" % (r["n"], (al or {}).get(r.get("lid"), r.get("lid")))
+    return desc(e)
+
+
+def _strip(d):
+    if isinstance(d, str):
+        return d.split("#", 1)[0]
+    if isinstance(d, list):
+        return [_strip(x) for x in d]
+    if isinstance(d, tuple):
+        return tuple(_strip(x) for x in d)
+    return d
+
+
+def _flat(d):
+    if isinstance(d, (list, tuple)):
+        for x in d:
+            yield from _flat(x)
+    else:
+        yield d
+
+
 class Found(Exception):
     def __init__(self, v):
         self.v = v
@@ -171,13 +235,22 @@ def run(ctx, F, rule="E-CACHE", crates=("oxidd_rules_",)):
         else:
             g = gets[0]
             gkey = (desc(g["a"][1]), desc(g["a"][2]))
+            lal = lid_aliases(h["body"])
+            gk = (kdesc(g["a"][1], lal), kdesc(g["a"][2], lal))
             for a in adds:
                 akey = (desc(a["a"][1]), desc(a["a"][2]))
+                ak = (kdesc(a["a"][1], lal), kdesc(a["a"][2], lal))
                 if akey != gkey:
                     ok = False
                     detail = ("%s looks up the apply cache under key %r (line %s) but inserts under %r (line %s): "
                               "a result memoised for one key is served for another"
                               % (where, gkey, g.get("ln"), akey, a.get("ln")))
+                elif ak != gk:
+                    ok = False
+                    diff = sorted({_strip(x) for x, y in zip(_flat(ak), _flat(gk)) if x != y})
+                    detail = ("%s looks up the apply cache under key %r (line %s) and inserts under a key that reads the same (line %s), but "
+                              "%s there is a later binding that shadows the looked-up operand: the result is filed under another key"
+                              % (where, gkey, g.get("ln"), a.get("ln"), ", ".join("`%s`" % d for d in diff)))
         ctx.ob(rule + ".pair", "%s.pair:%s" % (rule, nice), ok, detail or "%s: get/add keys agree: %r" % (where, gkey))
         if not gets or not adds:
             continue
